@@ -675,3 +675,10 @@ M('deadline-compared-inverted', ['C08'], F, "time.time() >= exit_after_t:", "tim
 
 M('emit-disabled-test-inverted', ['C18'], LN, "if not os.getenv(\"OPENLINEAGE_DISABLED\", \"false\").lower() in (\"true\", \"1\"):", "if os.getenv(\"OPENLINEAGE_DISABLED\", \"false\").lower() in (\"true\", \"1\"):", ['C18.R7'])
 M('payload-dict-of-none', ['C18'], LN, "data_to_use = dict(raw_data or {})", "data_to_use = dict(raw_data)", ['C18.R7'])
+
+M('cli-wildcard-test-inverted', ['C12'], CLI, '''"localhost" if addr[:1] in "*0" else addr''', '''"localhost" if addr[:1] not in "*0" else addr''', ['C12.R7'])
+M('cli-scheme-cut-one-too-many', ['C12'], CLI, '''            addr, port = (output[6:].rsplit(":", 1) + ["5550"])[:2]''', '''            addr, port = (output[7:].rsplit(":", 1) + ["5550"])[:2]''', ['C12.R7'])
+M('cli-ipc-clash-loop-stuck', ['C12'], CLI, '''                        new_source += "_"''', '''                        pass''', ['C12.R9'])
+M('cli-ipc-branch-inverted', ['C12'], CLI, '''                if ipc:\n                    new_source = f"ipc://''', '''                if not ipc:\n                    new_source = f"ipc://''', ['C12.R9'])
+M('cli-passthrough-drops-other-keys', ['C12'], CLI, "**{k: v for k, v in config.items() if k not in PARAM_ORDER},", "**{k: v for k, v in config.items() if k in PARAM_ORDER},", ['C12.R11'])
+M('cli-passthrough-ordered-absent-keys', ['C12'], CLI, "**{k: config[k] for k in PARAM_ORDER if k in config},", "**{k: config.get(k) for k in PARAM_ORDER},", ['C12.R11'])
